@@ -453,7 +453,11 @@ def build_item(src, spec, idx, log):
         okey = (kind, arg, tline)
         m0 = mask(text)
         he = _header_end(m0) if it.kind == 'fn' else 0
-        text = rewrite.annotate_closure(text, he or 0, int(arg), lines, lambda l: _tag(l, idx, okey))
+        text_c = rewrite.annotate_closure(text, he or 0, int(arg), lines, lambda l: _tag(l, idx, okey))
+        if text_c is None:
+            log['rewrites'].append({'rule': 'R10', 'item': what, 'count': 0, 'note': 'closure #%s is gone: its annotation is not applied' % arg})
+            continue
+        text = text_c
         log['rewrites'].append({'rule': 'R10', 'item': what, 'count': 1, 'note': 'closure #%s given explicit signature/ensures' % arg})
     # 3. splices: collect (position, text, originkind) then apply back to front
     m = mask(text)
